@@ -34,6 +34,9 @@ type xState struct {
 	trail string
 	stored []xStore // extents stored so far on this path (for the exact-overlap rule)
 	scr    map[string][]uint8 // scratch parameter -> per-byte status (scrZ..scrS), see scratchAccess
+	testV   *Lin            // operand of the last single-bit TEST (flags), nil otherwise
+	testBit int             // the tested bit
+	cov     map[string]*Lin // streamed parameter accessed through base+index: length of the prefix accessed so far without a gap
 }
 
 type xStore struct {
@@ -44,7 +47,13 @@ type xStore struct {
 }
 
 func (s *xState) clone() *xState {
-	t := &xState{regs: map[string]*Lin{}, facts: append([]Fact(nil), s.facts...), cmpA: s.cmpA, cmpB: s.cmpB, moved: map[string]bool{}, trail: s.trail, stored: append([]xStore(nil), s.stored...)}
+	t := &xState{regs: map[string]*Lin{}, facts: append([]Fact(nil), s.facts...), cmpA: s.cmpA, cmpB: s.cmpB, moved: map[string]bool{}, trail: s.trail, stored: append([]xStore(nil), s.stored...), testV: s.testV, testBit: s.testBit}
+	if s.cov != nil {
+		t.cov = map[string]*Lin{}
+		for k, v := range s.cov {
+			t.cov[k] = v
+		}
+	}
 	if s.scr != nil {
 		t.scr = map[string][]uint8{}
 		for k, v := range s.scr {
@@ -77,7 +86,15 @@ func (s *xState) regKey() string {
 		ms = append(ms, k)
 	}
 	sort.Strings(ms)
-	return strings.Join(ks, ";") + "|" + c + "|" + strings.Join(ms, ",")
+	if s.testV != nil {
+		c += fmt.Sprintf("|test %s bit %d", s.testV.String(), s.testBit)
+	}
+	var cs []string
+	for k, v := range s.cov {
+		cs = append(cs, k+"="+v.String())
+	}
+	sort.Strings(cs)
+	return strings.Join(ks, ";") + "|" + c + "|" + strings.Join(ms, ",") + "|" + strings.Join(cs, ",")
 }
 
 func (s *xState) key() string {
@@ -484,9 +501,41 @@ func (a *xAnalysis) step(s *xState, idx int) {
 	}
 	if e.SetsFlags {
 		s.cmpA, s.cmpB = nil, nil
+		s.testV = nil
 	}
 	if a.r.Arch == "amd64" {
+		if e.ZeroIdiom && len(args) == 2 && args[1].Kind == OReg && isGPR(args[1].Reg) {
+			a.setReg(s, args[1].Reg, linConst(0)) // XORQ r, r and friends
+			return
+		}
 		switch op {
+		case "TESTQ", "TESTL":
+			// TESTQ $2^b, r: the branch that follows learns bit b of r
+			if len(args) == 2 && args[0].Kind == OImm && args[1].Kind == OReg && isGPR(args[1].Reg) && args[0].Imm > 0 && args[0].Imm&(args[0].Imm-1) == 0 && args[0].Imm < 1<<16 {
+				if v := s.regs[args[1].Reg]; v != nil && ProveNonNeg(v, s.facts) {
+					b := 0
+					for int64(1)<<uint(b) != args[0].Imm {
+						b++
+					}
+					s.testV, s.testBit = v, b
+				}
+			}
+			return
+		case "DECQ", "INCQ":
+			if len(args) == 1 && args[0].Kind == OReg && isGPR(args[0].Reg) {
+				if d := s.regs[args[0].Reg]; d != nil {
+					delta := int64(1)
+					if op == "DECQ" {
+						delta = -1
+					}
+					nv := d.Add(linConst(delta))
+					a.setReg(s, args[0].Reg, nv)
+					s.cmpA, s.cmpB = nv, linConst(0) // ZF and (without overflow) the sign of the result
+				} else {
+					a.setReg(s, args[0].Reg, nil)
+				}
+				return
+			}
 		case "MOVQ", "MOVD":
 			if len(args) == 2 && args[1].Kind == OReg && isGPR(args[1].Reg) {
 				switch args[0].Kind {
@@ -532,8 +581,14 @@ func (a *xAnalysis) step(s *xState, idx int) {
 				if d != nil && v != nil {
 					if op == "ADDQ" {
 						a.setReg(s, args[1].Reg, d.Add(v))
+						if !isMemOp(args[0]) {
+							s.cmpA, s.cmpB = d.Add(v), linConst(0) // flags of the result against zero (no overflow on lengths)
+						}
 					} else {
 						a.setReg(s, args[1].Reg, d.Sub(v))
+						if !isMemOp(args[0]) {
+							s.cmpA, s.cmpB = d, v // SUBQ b, a sets the flags of CMPQ a, b
+						}
 					}
 					for k := range d.T {
 						if strings.HasPrefix(k, "&") && !strings.HasPrefix(k, "&sym:") {
@@ -664,6 +719,25 @@ func (a *xAnalysis) divSyms(s *xState, v *Lin, d int64) (q, r *Lin) {
 
 // branchFacts adds the fact of taking (taken=true) or not taking a conditional branch.
 func (a *xAnalysis) branchFacts(s *xState, in *Instr, taken bool) {
+	if s.testV != nil && (in.Op == "JEQ" || in.Op == "JNE") {
+		// v = 2^(b+1) q + r', r' = 2^b bit + r, 0 <= bit <= 1: the branch fixes bit
+		v, b := s.testV, s.testBit
+		_, rHi := a.divSyms(s, v, int64(1)<<uint(b+1))
+		rLo := linConst(0)
+		if b > 0 {
+			_, rLo = a.divSyms(s, v, int64(1)<<uint(b))
+		}
+		bit := linTerm(fmt.Sprintf("(%s)bit%d", v.String(), b), true)
+		s.addFact(rHi.Sub(bit.Scale(int64(1)<<uint(b))).Sub(rLo), true)
+		zero := (in.Op == "JEQ") == taken // ZF = 1: the tested bit is 0
+		if zero {
+			s.addFact(bit.Scale(-1), false)
+		} else {
+			s.addFact(bit.Add(linConst(-1)), false)
+			s.addFact(linConst(1).Sub(bit), false)
+		}
+		return
+	}
 	if s.cmpA == nil || s.cmpB == nil {
 		return
 	}
@@ -783,6 +857,22 @@ func (a *xAnalysis) checkAccesses(s *xState, idx int) {
 			}
 		}
 		rec.off = off
+		if a.contract != nil && !strings.HasPrefix(base, "&sym:") && a.contract.consumeSet[base[1:]] != nil && m.Index != "" {
+			// a streamed parameter addressed as base+index: the pointer never moves; what is consumed is the prefix accessed
+			// without a gap
+			pn := base[1:]
+			if s.cov == nil {
+				s.cov = map[string]*Lin{}
+			}
+			cv := s.cov[pn]
+			if cv == nil {
+				cv = linConst(0)
+			}
+			if ProveNonNeg(cv.Sub(off), s.facts) && ProveNonNeg(off.Add(linConst(width)).Sub(cv), s.facts) {
+				cv = off.Add(linConst(width))
+			}
+			s.cov[pn] = cv
+		}
 		if a.recording && a.contract != nil && a.contract.scratch != nil && !strings.HasPrefix(base, "&sym:") {
 			if n, ok := a.contract.scratch[base[1:]]; ok {
 				a.scratchAccess(s, in, base[1:], n, off, int(width), m.Load, m.Store)
@@ -1093,11 +1183,16 @@ func (a *xAnalysis) normalize(s *xState, to int) {
 			}
 		}
 	}
-	for _, l := range []*Lin{s.cmpA, s.cmpB} {
+	for _, l := range []*Lin{s.cmpA, s.cmpB, s.testV} {
 		if l != nil {
 			for k := range l.T {
 				liveSyms[k] = true
 			}
+		}
+	}
+	for _, l := range s.cov {
+		for k := range l.T {
+			liveSyms[k] = true
 		}
 	}
 	var keep []Fact
@@ -1382,9 +1477,52 @@ func (a *xAnalysis) handleLoop(l *xLoop, ins []*xState, record bool) map[xEdge][
 	out := map[xEdge][]*xState{}
 	ld := a.loopDeltas(l)
 	for _, s := range ins {
+		// coverage of index-addressed streamed parameters advances by a constant per iteration (measured on the first iteration)
+		covDelta := map[string]int64{}
+		if a.contract != nil && len(a.contract.consumeSet) > 0 {
+			_, fb := a.runRegion(l.blocks, l.header, []*xState{s.clone()}, l.header, false)
+			for pn := range a.contract.consumeSet {
+				first := true
+				var d int64
+				ok := len(fb) > 0
+				for _, b := range fb {
+					cv := b.cov[pn]
+					if cv == nil {
+						ok = false
+						break
+					}
+					c0 := s.cov[pn]
+					if c0 == nil {
+						c0 = linConst(0)
+					}
+					df := cv.Sub(c0)
+					if !df.IsConst() || (!first && df.C != d) {
+						ok = false
+						break
+					}
+					d, first = df.C, false
+				}
+				if ok && d != 0 {
+					covDelta[pn] = d
+				}
+			}
+		}
+		shiftCov := func(t *xState, n *Lin) {
+			for pn, d := range covDelta {
+				if t.cov == nil {
+					t.cov = map[string]*Lin{}
+				}
+				c0 := t.cov[pn]
+				if c0 == nil {
+					c0 = linConst(0)
+				}
+				t.cov[pn] = c0.Add(n.Scale(d))
+			}
+		}
 		// generic iteration j: facts that hold on every path from the header to the back edge
 		j := linTerm(a.fresh("j"), true)
 		g := a.shift(s, ld, j)
+		shiftCov(g, j)
 		nBase := len(g.facts)
 		_, gBacks := a.runRegion(l.blocks, l.header, []*xState{g}, l.header, false)
 		var F []Fact
@@ -1407,11 +1545,33 @@ func (a *xAnalysis) handleLoop(l *xLoop, ins []*xState, record bool) map[xEdge][
 				}
 			}
 		}
+		// a continue condition E(j) != 0 on a value that moves by one per iteration and is non-negative on entry holds
+		// as E(j) >= 1 in every iteration that continues (induction: E >= 0 and E != 0 give E >= 1, and E - 1 >= 0 next time)
+		jk := nameOf(j)
+		for i, f := range F {
+			if !f.Ne {
+				continue
+			}
+			E := f.E
+			switch E.T[jk] {
+			case -1:
+			case 1:
+				E = E.Scale(-1)
+			default:
+				continue
+			}
+			E0 := E.clone()
+			delete(E0.T, jk)
+			if ProveNonNeg(E0, s.facts) {
+				F[i] = Fact{E: E.Add(linConst(-1))}
+			}
+		}
 		if record {
 			// first iteration
 			a.runRegion(l.blocks, l.header, []*xState{s.clone()}, l.header, true)
 			// a later iteration: j+1 completed iterations before it, and the back-edge facts of iteration j hold
 			s1 := a.shift(s, ld, j.Add(linConst(1)))
+			shiftCov(s1, j.Add(linConst(1)))
 			s1.facts = append(s1.facts, F...)
 			if len(gBacks) > 0 && !a.contradictory(s1) {
 				a.runRegion(l.blocks, l.header, []*xState{s1}, l.header, true)
@@ -1420,6 +1580,7 @@ func (a *xAnalysis) handleLoop(l *xLoop, ins []*xState, record bool) map[xEdge][
 		// exits from a generic iteration n
 		n := linTerm(a.fresh("n"), true)
 		m := a.shift(s, ld, n)
+		shiftCov(m, n)
 		if len(gBacks) == 0 {
 			m = s.clone() // the back edge is infeasible: the body runs once
 		}
@@ -1447,6 +1608,13 @@ func (a *xAnalysis) handleLoop(l *xLoop, ins []*xState, record bool) map[xEdge][
 							t.addFact(f.E.Add(linConst(D)), false)
 						}
 					}
+				}
+				if xDebug {
+					var fs []string
+					for _, f := range t.facts {
+						fs = append(fs, factStr(f))
+					}
+					fmt.Printf("  loop exit %v: facts {%s} contradictory=%v\n", e, strings.Join(fs, "; "), a.contradictory(t))
 				}
 				if !a.contradictory(t) {
 					out[e] = append(out[e], t)
@@ -1479,6 +1647,9 @@ func minInt(a, b int) int {
 func (a *xAnalysis) atReturn(s *xState, ret *Instr) {
 	for p, wants := range a.contract.consumeSet {
 		if !s.moved[p] {
+			if cv := s.cov[p]; cv != nil {
+				a.recordConsumption(p, cv, wants, s, ret)
+			}
 			continue
 		}
 		// the most advanced register still holding a p-based pointer
